@@ -541,6 +541,13 @@ func c09FixedList() []c09Fixed {
 			}})
 		}
 	}
+	// jump operands at and around the 16-bit limit (the accepted ones), taken and not taken
+	for _, src := range c10Fixed() {
+		if len(src) > 100000 {
+			src := src
+			l = append(l, c09Fixed{"jump_distance_at_the_limit", "in", func() string { return src }})
+		}
+	}
 	l = append(l, c09Fixed{"many_constants", "in", func() string {
 		var b strings.Builder
 		for k := 0; k < 2400; k++ {
@@ -557,7 +564,7 @@ func init() {
 		Level: "exploration",
 		Rule: "metamorphic monitor (parsed vs dump->load): for each accepted program Dump must succeed, an independent decoder must recover exactly the program's parts and an independent encoder must reproduce the bytes; LoadProg through 6 reader behaviours (whole, 1 byte per read, halves, random chunks, zero-byte reads, data with EOF) and every 2-partition of small dumps must give a program with identical disassembly, output, blocks, binding, warnings and runtime error text; re-dump must be byte-identical. " +
 			"Workload: size-directed programs (string constants, identifiers and program names of 0..67825 bytes across every varint class and the 4096-byte buffers, code and source offsets beyond 67823, 2400+ constants), float constants of random bit patterns, and generated programs of all profiles. " +
-			"distinct = hash of dump; non-trivial = program accepted and dumped Also: string sizes 3..131 each with every 2-partition; LoadProg is always given another name than Parse (the dumped name must win); Prog.Load into a Prog that was disassembled, executed and traced before (results, re-dump, trace text and the text of an error kept from before the reload must be unaffected); sources with 65538 / 70000 lines and beyond 16 MiB; Dump into a pipe and /dev/null. String constants that are not text: every single byte value as a one-byte constant, and runs of continuation, lead, cut-character, surrogate and 0xFF bytes placed around offsets 4096 and 8192 of a long constant.",
+			"distinct = hash of dump; non-trivial = program accepted and dumped Also: string sizes 3..131 each with every 2-partition; LoadProg is always given another name than Parse (the dumped name must win); Prog.Load into a Prog that was disassembled, executed and traced before (results, re-dump, trace text and the text of an error kept from before the reload must be unaffected); sources with 65538 / 70000 lines and beyond 16 MiB; Dump into a pipe and /dev/null. String constants that are not text: every single byte value as a one-byte constant, and runs of continuation, lead, cut-character, surrogate and 0xFF bytes placed around offsets 4096 and 8192 of a long constant. Programs whose and/or jump operands lie at and around the 16-bit limit (distances 65524..65535, taken and not taken).",
 		Assumptions:   []string{"Execute of the parsed program is the reference for the loaded one", "in the thorough tier the same workload also runs under the race detector build"},
 		MinNontrivial: 300,
 		RaceAlso:      func(tier string) bool { return tier == "thorough" },
